@@ -82,12 +82,32 @@ func runC11(o *hx.Out, r *hx.Rand, thorough bool) {
 		}
 		hdr := http.Header{}
 		binOK := true
-		for k := r.Intn(3); k > 0; k-- {
+		// the first iterations replay a fixed corpus of header sets on otherwise valid requests
+		corpus := []http.Header{
+			{"Grpc-Timeout": {""}}, {"Grpc-Timeout": {"", "5S"}}, {"Grpc-Timeout": {"S"}}, {"Grpc-Timeout": {"1"}},
+			{"A-Bin": {"!!!"}, "B-Bin": {"YQ=="}, "C-Bin": {"YWI="}, "D-Bin": {"YWJj"}, "E-Bin": {""}},
+			{"A-Bin": {"YQ=="}, "Zz-Bin": {"abc"}}, {"X-Data-Bin": {"YQ==", "!!!"}}, {"X-Data-Bin": {"!!!", "YQ=="}},
+			{"Content-Length": {"3"}}, {"Te": {"trailers"}}, {"X-Plain": {"\xff\xfe"}},
+		}
+		if it < 4*len(corpus) {
+			method, body = "POST", pb
+			ct = []string{httpgrpc.UnaryRpcContentType_V1, httpgrpc.StreamRpcContentType_V1, httpgrpc.ApplicationJson, httpgrpc.StreamRpcContentType_V1}[it%4]
+			if it%4 == 2 {
+				body = []byte(`{"count": 7}`)
+			}
+		}
+		binKeys := []string{"X-Data-Bin", "Trace-Bin", "A-Bin", "Zz-Bin", "x-other-bin"}
+		nh := r.Intn(6)
+		if it < 4*len(corpus) {
+			nh = 0
+			hdr = corpus[it/4].Clone()
+		}
+		for k := nh; k > 0; k-- {
 			switch r.Intn(5) {
 			case 0:
-				hdr.Add("X-Data-Bin", base64.URLEncoding.EncodeToString(r.Bytes(r.Range(0, 5))))
+				hdr.Add(r.Pick(binKeys), base64.URLEncoding.EncodeToString(r.Bytes(r.Range(0, 5))))
 			case 1:
-				hdr.Add("X-Data-Bin", r.Pick([]string{"!!!", "abc", "YQ", "YQ==x", "+/+/"}))
+				hdr.Add(r.Pick(binKeys), r.Pick([]string{"!!!", "abc", "YQ", "YQ==x", "+/+/"}))
 			case 2:
 				hdr.Add("X-Plain", "value")
 			case 3:
